@@ -10,9 +10,9 @@ CHECKS = {
  "C31": ("exploration", "property-based testing (proptest) against an independent caret-placement oracle",
          "Generated texts x spans on character boundaries are rendered and compared with an independent computation of the start row and of the exact character columns that must carry a caret; 40k cases quick, 2M thorough. Sampling, not proof.",
          "Spans are assumed to lie on character boundaries; the column number is not checked (the statement is about the row and the carets).", "5/C31"),
- "C33": ("exploration", "property-based testing (proptest): round trip + exhaustive single-character edit enumeration per generated file, independent MD5",
-         "Generated contents with one or more tokens, bare tokens and look-alike signatures are signed; the result must equal the harness's own md5-based signing, must verify, and every single-character substitution/insertion/deletion outside the signature digits (all positions for short files) must not verify.",
-         "Trusts the md-5 crate; MD5 collisions are out of scope.", "5/C33"),
+ "C33": ("exploration", "property-based testing (proptest): round trip + exhaustive single-character edit enumeration per generated file",
+         "Generated contents with one or more tokens, bare tokens and look-alike signatures are signed; the result must verify, and every single-character substitution/insertion/deletion outside the signature digits (all positions for short files) must not verify.",
+         "MD5 collisions are out of scope; nothing is assumed about how the signature is computed or where it is placed.", "5/C33"),
 }
 NOT_APPLICABLE = []
 
